@@ -762,7 +762,7 @@ def obligations(tier, prop="C04"):
             for pos in ("nterm", "cterm"):
                 obs.append(Obligation(f"rotation-{r}-{pos}-neutral", run_classification, dict(resname=r, position=pos, neutral=True, prop=prop), kind="lemma", group="rotation"))
     # the rotating group must not depend on the order in which the input lists the residue's atoms
-    for r in ("HIS", "LEU", "LYS", "TYR") if tier == "quick" else residues:
+    for r in ("HIS", "LEU", "LYS", "TYR", "MET") if tier == "quick" else residues:
         for order in ("alphabetical", "reversed"):
             obs.append(Obligation(f"rotation-{r}-internal-{order}", run_classification, dict(resname=r, position="internal", neutral=False, prop=prop, order=order), kind="lemma", group="rotation"))
     # the Debump object is reused across passes (debump, add hydrogens, debump / flips): nothing it remembers from the
